@@ -1,3 +1,6 @@
+(** [internal o]: the operation is not "an external tool moved the current file away + reopen()" ([ExtMove]);
+    data taken away by an outside tool is outside the suffix / nothing-lost statements, but [ExtMove] IS covered by
+    [numbering_stays_in_age_order] and [rotated_files_ge_rotateLength] (reopen() re-reads the size). *)
 (** C53 property theorems: LogFile, every rotateLength [rl] (0 = disabled), every retention count
     [maxr], every initial directory in listLogs() order, every history of byte/text writes, explicit
     rotations, reopenings and crashes inside rotate() after any number of its remove/rename calls. *)
@@ -8,7 +11,7 @@ Import ListNotations.
 (** rotated files (oldest first) followed by the current file hold exactly a suffix of everything
     written (what was on disk at the start included), nothing lost, duplicated or reordered inside it *)
 Theorem retained_is_suffix_of_written_in_order : forall rl maxr s0 ops,
-  sorted s0 ->
+  Forall internal ops -> sorted s0 ->
   let r := run rl maxr s0 ops in
   exists dropped, disk s0 ++ all_written (snd r) = dropped ++ disk (fst r).
 Proof. intros rl maxr s0 ops. exact (run_suffix rl maxr ops s0). Qed.
@@ -34,13 +37,13 @@ Print Assumptions rotated_files_ge_rotateLength.
     [kept N m0 r] = (m0 if r = 0, else min (m0 + r) N) rotated files exist, numbered contiguously from 1;
     by the first theorem their contents are the newest ones, in order *)
 Theorem retention_keeps_newest_N : forall rl N ops s0 m0,
-  1 <= N -> Forall crash_free ops -> map fst (rot s0) = down m0 ->
+  1 <= N -> Forall crash_free ops -> Forall internal ops -> map fst (rot s0) = down m0 ->
   let r := run rl (Some N) s0 ops in
   map fst (rot (fst r)) = down (kept N m0 (nrot (snd r)))
   /\ exists dropped, disk s0 ++ all_written (snd r) = dropped ++ disk (fst r).
 Proof.
-  intros rl N ops s0 m0 HN Hc H0. split; [apply run_idx; assumption|].
-  apply run_suffix. exists (S m0). apply down_below, H0.
+  intros rl N ops s0 m0 HN Hc Hi H0. split; [apply run_idx; assumption|].
+  apply run_suffix; [exact Hi|]. exists (S m0). apply down_below, H0.
 Qed.
 Print Assumptions retention_keeps_newest_N.
 
@@ -68,6 +71,7 @@ Print Assumptions crash_in_rotate_reorders_nothing.
 
 (** without a retention count nothing is ever lost, crashes included *)
 Theorem crash_loses_nothing_without_retention : forall rl s0 ops,
+  Forall internal ops ->
   let r := run rl None s0 ops in
   disk (fst r) = disk s0 ++ all_written (snd r).
 Proof. intros rl s0 ops. exact (run_none_disk rl ops s0). Qed.
